@@ -56,7 +56,7 @@ WIN_ORACLE = 'independent specification: every start s with s+k<=len and no N in
 # ------------------------------------------------------------------ C01.win
 for (nm, ty, k, L, tier, tmo) in [('u64.k5', 'u64', 5, 8, 'quick', 900), ('u64.k7', 'u64', 7, 10, 'quick', 1200), ('u64.k9', 'u64', 9, 12, 'thorough', 3600), ('u64.k5l11', 'u64', 5, 11, 'thorough', 3600),
                                   ('u128.k5', 'u128', 5, 8, 'thorough', 1800), ('u128.k7', 'u128', 7, 10, 'thorough', 2400)]:
-    ob('C01.win.' + nm, ['C01', 'C16'] if nm == 'u64.k5' else ['C01'], 'split_kmer/win', 'win_%s_k%d_l%d' % (ty, k, L), tier=tier, functions=WINF, inst=ty, needs_parts=['split_kmer/common'],
+    ob('C01.win.' + nm, ['C01', 'C16', 'C02', 'C03'] if nm == 'u64.k5' else ['C01'], 'split_kmer/win', 'win_%s_k%d_l%d' % (ty, k, L), tier=tier, functions=WINF, inst=ty, needs_parts=['split_kmer/common'],
        sym='record bytes over {A,C,G,T,N,a,c,g,t,n}, record length 0..=%d, strand mode' % L, oracle=WIN_ORACLE, bounds='k=%d, record length <= %d' % (k, L), timeout=tmo, mem_gb=10)
 
 # ------------------------------------------------------------------ C16.roll / C01.pack / C02.strand / C02.case
@@ -274,6 +274,8 @@ for (nm, fn) in [('noconst', 'c10_filter_noconst'), ('nofilter.uk', 'c10_filter_
        oracle='identical result (emitted rows, removed count, saved table) whatever count was stored', bounds='1 k-mer, 3 samples, flags: ' + nm, timeout=2400, mem_gb=14)
 ob('C05.ref', ['C05'], 'ska_ref/vcf', 'u8_to_base_all_bytes', functions=['src/ska_ref.rs::u8_to_base'], needs_parts=['ska_ref/common'], sym='byte (256)', oracle='A/C/G/T map to themselves, everything else to N', bounds='complete domain', timeout=600, mem_gb=8)
 
+# C07.wrap (generic_modes::merge with a load provider and a save recorder) is NOT registered: out of memory at 16 GB after 249 s
+# (harness and stub lines kept in /verif/attic/c07_wrap_*).
 # ------------------------------------------------------------------ C12.cnt
 BF = 'src/ska_dict/bloom_filter.rs::KmerFilter::'
 for n, tier in ((3, 'quick'), (4, 'thorough')):
